@@ -153,6 +153,28 @@ def check_C06(chk, tier, seed):
         chunks = [[stream], [stream[i:i + 1] for i in range(len(stream))], random_chunking(r, stream)][(k // 4) % 3]
         cases.append(f"SD g {len(fi) + 1} {rs(chunks, 'e')}")
         expect.append(("read-refused-content", "SD " + " ".join(want)))
+    # (f) two streams read side by side by two futures of one thread, each not ready now and then in the middle of its frames: each
+    # yields its own messages - whatever a reader keeps while it waits belongs to its stream
+    for k in range(60 if tier == "quick" else 3000):
+        r = rng.fork(f"two{k}")
+        parts, wants = [], []
+        for _ in range(2):
+            fi = [r.below(len(msgs)) for _ in range(r.choice([1, 2, 3]))]
+            s2 = b"".join(msgs[i][1] for i in fi)
+            ch = []
+            for i in range(0, len(s2), 5):
+                ch += [s2[i:i + 5], "p"]
+            if k % 3 == 0:
+                ch = random_chunking(r, s2)
+            want, cum = [], 0
+            for i in fi:
+                cum += len(msgs[i][1])
+                want.append(f"[OK {msgs[i][2]} @{cum}]")
+            want.append(f"[EOF @{len(s2)}]")
+            parts.append(f"{len(fi) + 1} {rs(ch, 'e')}")
+            wants.append("SD " + " ".join(want))
+        cases.append(f"SD2 g {parts[0]} {parts[1]}")
+        expect.append(("read-two-streams", wants[0] + " || " + wants[1]))
     # (d) deviation-bounded Pending placement: one / two Pending entries at every position of a dribble
     r = rng.fork("dev")
     fi = [r.below(len(msgs)) for _ in range(2)]
@@ -253,6 +275,26 @@ def check_C06(chk, tier, seed):
             chunks = [stream[i:j] for i, j in zip([0] + cuts, cuts + [len(stream)])]
             cases.append(f"SD g 5 {rs(chunks, 'e')}")
             expect.append(("read-large", want))
+    # messages whose encoding is longer than the largest frame the READER accepts (1 MiB + 4, 1.5 MB, 4 MB): the writer has no such
+    # limit - a message that encodes (below 16 MiB) is written, every octet (implementation only: no model run for megabytes)
+    huge_lines = [f"H g NEW 110 4 0 {hx(0x70 + j)} 2 1 ADDAVP 3f3 - 0 L octz {hx(n)}" for j, n in enumerate([1048552, 1500000] + ([4000000] if tier == "thorough" else []))]
+    huge_enc = core.run_sharded([eng.harness, "codec"], eng.prelude, huge_lines, shards=1, timeout=600)
+    hcases, hwant = [], []
+    for c, im in zip(huge_lines, huge_enc):
+        if im.startswith("R ok") and " ENC x" in im:
+            fr = im[im.rindex(" ENC ") + 5:].split()[0]
+            for script in ([], [65536] * 40 + [1 << 24], [100000, "p"] * 12 + [1 << 24]):
+                hcases.append(f"SE {c[2:]} {ws(script)}")
+                hwant.append("SE ok " + fr)
+        else:
+            chk.violation("a message of 1 ... 4 MB could not be built and encoded: " + short(im, 200), dict(case=c, impl=short(im, 400)))
+    for c, want, im in zip(hcases, hwant, core.run_sharded([eng.harness, "codec"], eng.prelude, hcases, shards=3, timeout=900)):
+        chk.case(core.sha(c), True)
+        chk.validated += 1
+        chk.count("write-above-1MiB")
+        if im != want:
+            chk.violation("writing a message whose encoding is longer than 1 MiB (below 16 MiB) to a stream did not put exactly its encoding on the stream",
+                          dict(case=short(c, 300), impl=short(im, 300), expected=short(want, 300)))
     impl, model = eng.run(cases)
     for i, (c, ex, im, mo) in enumerate(zip(cases, expect, impl, model)):
         chk.case(c, " p" in c or c.count("c:") >= 2 or c.count("a:") >= 2)
